@@ -14,7 +14,7 @@ namespace EG
     class 3 has its own metaclass 1, classes 4,5 (5 a subclass of 4) use metaclass 2 with a
     custom hash function -/
 def ssCfg : Sg.SSCfg where
-  mapOf := fun c => if c ≤ 2 then 0 else if c = 3 then 1 else 2
+  mapOf := fun c => if c ≤ 2 || c = 6 then 0 else if c = 3 then 1 else 2     -- class 6: a metaclass DERIVED from metaclass 0
   keyOf := fun m a =>
     if m = 2 then [0, 1, 1, 1, 1, 1, 2, 2, 2, 1, 1, 1, 1, 2, 2].getD a 9      -- len(args) + len(kwargs)
     else [0, 1, 1, 1, 2, 3, 4, 4, 5, 6, 7, 8, 8, 9, 10].getD a 11            -- ==-class of (args, json(kwargs))
